@@ -49,6 +49,11 @@ def check(ctx: Ctx) -> None:
     r1_fresh_names(ctx, "C03.R9")
     ctx.shared(c09_r3, "C09.R3", "C03.R10", "recovery / maintenance code deleting files on its own judgement can remove files of a "
                "committed snapshot after a crash")
+    from .c20 import r3 as c20_r3
+    ctx.shared(c20_r3, "C20.R3", "C03.R11", "the conditional pointer PUT is never retried")
+    # an ambiguous pointer write keeps every file: 'resolving' it by a re-read races with the write landing later
+    from .c04 import r3 as c04_r3
+    ctx.shared(c04_r3, "C04.R3", "C03.R12", "the ambiguous-outcome handler never deletes")
 
 
 def r5(ctx: Ctx) -> None:
